@@ -3,6 +3,7 @@ From Coq Require Import ZArith List Bool Lia ZifyBool.
 From V Require Import C15BitFmt C15Asc C15BitFmtProofs.
 Import ListNotations.
 Open Scope Z_scope.
+Opaque K.
 
 Lemma read5 : forall v r, 0 <= v < 32 -> go_read 5 8 (ubits 5 v ++ r) = Some (v, r).
 Proof. intros. apply (go_read_ubits 5 8 v r); lia. Qed.
